@@ -5,6 +5,9 @@
 // here (the DeviceManager/Driver seam).
 //
 //   hal_seq replay  <scripts.txt> <trace.ndjson>           spec -> code: replay TLC-exported transitions
+//   hal_seq script  <scripts.txt> <trace.ndjson>           same, nothing compared (witness replay)
+//   hal_seq walk    <edges.txt> <camera|storage> <depth> <trace.ndjson|->
+//                                                           spec -> code: every model history up to a depth
 //   hal_seq explore <camera|storage> <maxdepth> <maxopens> <trace.ndjson>
 //                                                           code -> spec: implementation-driven exploration
 //   hal_seq random  <seed> <histories> <length> <trace.ndjson>
@@ -58,9 +61,14 @@ enum
 // ------------------------------------------------------------------------------------------------ event log
 static FILE* EVF;
 static long nevents;
+static int ev_off; // the trace is not wanted (output "-"): only count
 static void
 ev(const char* fmt, ...)
 {
+    if (ev_off) {
+        nevents++;
+        return;
+    }
     va_list ap;
     va_start(ap, fmt);
     vfprintf(EVF, fmt, ap);
@@ -627,27 +635,8 @@ reported_state(void)
 static void
 mirror_ret(const char* f, int st)
 {
-    int r = -1;
-    for (int i = 0; i < ncalls; ++i)
-        if (!strcmp(calls[i], f)) {
-            r = answers[i];
-            break;
-        }
-    if (r < 0)
-        return;
-    if (g_kind == K_CAM) {
-        if (!strcmp(f, "set"))
-            m_exp = r == 0 ? (m_exp == ST_RUNNING ? ST_RUNNING : ST_ARMED) : ST_AWAIT;
-        else if (!strcmp(f, "start"))
-            m_exp = r == 0 ? ST_RUNNING : ST_AWAIT;
-        else if (!strcmp(f, "stop"))
-            m_exp = r == 0 ? ST_ARMED : ST_AWAIT;
-        else if (!strcmp(f, "get_frame") && r != 0)
-            m_exp = ST_AWAIT;
-    } else if (!strcmp(f, "set") && r == ST_ARMED && m_exp == ST_RUNNING)
-        m_exp = st == ST_ARMED ? ST_ARMED : ST_RUNNING;
-    else if (!strcmp(f, "set") || !strcmp(f, "start") || !strcmp(f, "stop") || !strcmp(f, "append"))
-        m_exp = r;
+    (void)f;
+    m_exp = st; // the observation spec takes the reported state as the baseline for the next call
 }
 
 // one HAL call; returns 0, or -1 if the call cannot be made in the present situation (script error)
@@ -752,7 +741,7 @@ hal_call(const char* f, int a, int* rc_out, int* st_out)
             return -1;
     }
     check_touch();
-    int st = nullself ? -1 : reported_state();
+    int st = reported_state(); // of the client's device, also after a call that was given a NULL device
     if (!nullself && has_dev())
         mirror_ret(f, st);
     ev("{\"e\":\"Ret\",\"f\":\"%s\",\"rc\":%d,\"st\":%d,\"h\":%d}", f, rc, st, h);
@@ -763,12 +752,77 @@ hal_call(const char* f, int a, int* rc_out, int* st_out)
 
 // ------------------------------------------------------------------------------------------------ replay
 static long n_scripts, n_steps, n_mismatch;
+static int no_compare; // `script` mode: run the history, record the trace, expect nothing
 static void
 mismatch(const char* id, int step, const char* line, const char* what, const char* expd, const char* got)
 {
+    if (no_compare)
+        return;
     n_mismatch++;
     if (n_mismatch <= 40)
         printf("MISMATCH script=%s step=%d what=%s expected=[%s] got=[%s] call=[%s]\n", id, step, what, expd, got, line);
+}
+
+// one script line `C f a | answers | expected driver calls | rc st`: make the call, compare. -1: malformed,
+// 1: the call cannot be made in the present situation, 0: done
+static int
+exec_line(const char* text, const char* id, int step)
+{
+    char line[1024];
+    snprintf(line, sizeof line, "%s", text);
+    char* sec[4] = { 0, 0, 0, 0 };
+    int ns = 0;
+    char* p = line + 1;
+    sec[ns++] = p;
+    while ((p = strchr(p, '|')) && ns < 4) {
+        *p++ = 0;
+        sec[ns++] = p;
+    }
+    if (ns != 4)
+        return -1;
+    char fn[32];
+    int a = 0, erc = 0, est = 0;
+    if (sscanf(sec[0], "%31s %d", fn, &a) != 2 || sscanf(sec[3], "%d %d", &erc, &est) != 2)
+        return -1;
+    rqn = rqi = 0;
+    for (char* t = strtok(sec[1], " "); t && rqn < 16; t = strtok(0, " "))
+        rq[rqn++] = atoi(t);
+    char ecalls[256] = "";
+    for (char* t = strtok(sec[2], " "); t; t = strtok(0, " ")) {
+        if (ecalls[0])
+            strcat(ecalls, " ");
+        strncat(ecalls, t, sizeof ecalls - strlen(ecalls) - 2);
+    }
+    unscripted = 0;
+    ans_src = SRC_SCRIPT;
+    int rc, st;
+    n_steps++;
+    if (hal_call(fn, a, &rc, &st)) {
+        mismatch(id, step, text, "not-callable", "", "");
+        return 1;
+    }
+    if (no_compare)
+        return 0;
+    char gcalls[256] = "";
+    for (int i = 0; i < ncalls; ++i) {
+        if (i)
+            strcat(gcalls, " ");
+        strcat(gcalls, calls[i]);
+    }
+    char eb[64], gb[64];
+    if (strcmp(gcalls, ecalls) || unscripted || rqi != rqn)
+        mismatch(id, step, text, "driver-calls", ecalls, gcalls);
+    if (rc != erc) {
+        snprintf(eb, sizeof eb, "%d", erc);
+        snprintf(gb, sizeof gb, "%d", rc);
+        mismatch(id, step, text, "return-code", eb, gb);
+    }
+    if (st != est) {
+        snprintf(eb, sizeof eb, "%d", est);
+        snprintf(gb, sizeof gb, "%d", st);
+        mismatch(id, step, text, "hal-state", eb, gb);
+    }
+    return 0;
 }
 
 static int
@@ -779,11 +833,10 @@ replay(const char* path)
         fprintf(stderr, "cannot open %s\n", path);
         return 2;
     }
-    char line[1024], id[64] = "", orig[1024];
+    char line[1024], id[64] = "";
     int step = 0, active = 0;
     while (fgets(line, sizeof line, f)) {
         line[strcspn(line, "\n")] = 0;
-        snprintf(orig, sizeof orig, "%s", line);
         if (line[0] == 'R') {
             char kind[32];
             if (sscanf(line, "R %31s %63s", kind, id) != 2)
@@ -797,63 +850,105 @@ replay(const char* path)
                 end_execution();
             active = 0;
         } else if (line[0] == 'C' && active) {
-            // C f a | answers | calls | rc st
-            char* sec[4] = { 0, 0, 0, 0 };
-            int ns = 0;
-            char* p = line + 1;
-            sec[ns++] = p;
-            while ((p = strchr(p, '|')) && ns < 4) {
-                *p++ = 0;
-                sec[ns++] = p;
-            }
-            if (ns != 4)
+            int r = exec_line(line, id, ++step);
+            if (r < 0)
                 return 2;
-            char fn[32];
-            int a = 0, erc = 0, est = 0;
-            if (sscanf(sec[0], "%31s %d", fn, &a) != 2 || sscanf(sec[3], "%d %d", &erc, &est) != 2)
-                return 2;
-            rqn = rqi = 0;
-            for (char* t = strtok(sec[1], " "); t && rqn < 16; t = strtok(0, " "))
-                rq[rqn++] = atoi(t);
-            char ecalls[256] = "";
-            for (char* t = strtok(sec[2], " "); t; t = strtok(0, " ")) {
-                if (ecalls[0])
-                    strcat(ecalls, " ");
-                strncat(ecalls, t, sizeof ecalls - strlen(ecalls) - 2);
-            }
-            unscripted = 0;
-            ans_src = SRC_SCRIPT;
-            int rc, st;
-            step++;
-            n_steps++;
-            if (hal_call(fn, a, &rc, &st)) {
-                mismatch(id, step, orig, "not-callable", "", "");
-                active = 0; // the rest of this history makes no sense
+            if (r > 0) { // the rest of this history makes no sense
+                active = 0;
                 end_execution();
-                continue;
-            }
-            char gcalls[256] = "";
-            for (int i = 0; i < ncalls; ++i) {
-                if (i)
-                    strcat(gcalls, " ");
-                strcat(gcalls, calls[i]);
-            }
-            char eb[64], gb[64];
-            if (strcmp(gcalls, ecalls) || unscripted || rqi != rqn)
-                mismatch(id, step, orig, "driver-calls", ecalls, gcalls);
-            if (rc != erc) {
-                snprintf(eb, sizeof eb, "%d", erc);
-                snprintf(gb, sizeof gb, "%d", rc);
-                mismatch(id, step, orig, "return-code", eb, gb);
-            }
-            if (st != est) {
-                snprintf(eb, sizeof eb, "%d", est);
-                snprintf(gb, sizeof gb, "%d", st);
-                mismatch(id, step, orig, "hal-state", eb, gb);
             }
         }
     }
     fclose(f);
+    return 0;
+}
+
+// ------------------------------------------------------------------------------------------------ walk
+// All histories of the model graph up to a depth: edges file lines `<src> <dst> C f a | answers | calls | rc st`
+// (state 0 is the initial one). Every maximal path of at most `depth` edges is replayed from a fresh device
+// and compared call by call.
+struct wedge
+{
+    int src, dst;
+    char* line;
+};
+static struct wedge* W;
+static int nW;
+static int* wfirst; // edges sorted by src: wfirst[s]..wfirst[s+1]
+static int wpath[64];
+static int wkind;
+static long n_leaves;
+
+static void
+walk_run(int n)
+{
+    char id[32];
+    snprintf(id, sizeof id, "w%ld", n_leaves);
+    new_execution(wkind);
+    n_scripts++;
+    for (int i = 0; i < n; ++i)
+        if (exec_line(W[wpath[i]].line, id, i + 1))
+            break;
+    end_execution();
+    n_leaves++;
+}
+static void
+walk_dfs(int state, int n, int depth)
+{
+    int b = wfirst[state], e = wfirst[state + 1];
+    if (n == depth || b == e) {
+        if (n > 0)
+            walk_run(n);
+        return;
+    }
+    for (int i = b; i < e; ++i) {
+        wpath[n] = i;
+        walk_dfs(W[i].dst, n + 1, depth);
+    }
+}
+static int
+cmp_wedge(const void* a, const void* b)
+{
+    const struct wedge *x = (const struct wedge*)a, *y = (const struct wedge*)b;
+    return x->src != y->src ? x->src - y->src : (x->line < y->line ? -1 : x->line > y->line);
+}
+static int
+walk(const char* path, int kind, int depth)
+{
+    FILE* f = fopen(path, "r");
+    if (!f)
+        return 2;
+    char line[1024];
+    int cap = 0, nstates = 0;
+    while (fgets(line, sizeof line, f)) {
+        line[strcspn(line, "\n")] = 0;
+        int s, d, off = 0;
+        if (sscanf(line, "%d %d %n", &s, &d, &off) < 2 || line[off] != 'C')
+            return 2;
+        if (nW == cap) {
+            cap = cap ? cap * 2 : 1024;
+            W = (struct wedge*)realloc(W, (size_t)cap * sizeof *W);
+        }
+        W[nW].src = s;
+        W[nW].dst = d;
+        W[nW].line = strdup(line + off);
+        nW++;
+        if (s >= nstates)
+            nstates = s + 1;
+        if (d >= nstates)
+            nstates = d + 1;
+    }
+    fclose(f);
+    qsort(W, (size_t)nW, sizeof *W, cmp_wedge);
+    wfirst = (int*)calloc((size_t)nstates + 2, sizeof(int));
+    for (int i = 0; i < nW; ++i)
+        wfirst[W[i].src + 1]++;
+    for (int s = 0; s <= nstates; ++s)
+        wfirst[s + 1] += wfirst[s];
+    wkind = kind;
+    if (depth > 60)
+        depth = 60;
+    walk_dfs(0, 0, depth);
     return 0;
 }
 
@@ -1033,15 +1128,21 @@ main(int argc, char** argv)
     if (argc < 2)
         return 2;
     const char* out = argv[argc - 1];
-    EVF = fopen(out, "w");
+    ev_off = !strcmp(out, "-");
+    EVF = fopen(ev_off ? "/dev/null" : out, "w");
     if (!EVF)
         return 2;
     static char iobuf[1 << 20];
     setvbuf(EVF, iobuf, _IOFBF, sizeof iobuf);
     int rc = 2;
-    if (!strcmp(argv[1], "replay") && argc == 4) {
+    no_compare = !strcmp(argv[1], "script");
+    if ((!strcmp(argv[1], "replay") || no_compare) && argc == 4) {
         rc = replay(argv[2]);
         printf("{\"scripts\":%ld,\"steps\":%ld,\"mismatches\":%ld,\"events\":%ld}\n", n_scripts, n_steps, n_mismatch,
+               nevents);
+    } else if (!strcmp(argv[1], "walk") && argc == 6) {
+        rc = walk(argv[2], !strcmp(argv[3], "camera") ? K_CAM : K_STO, atoi(argv[4]));
+        printf("{\"histories\":%ld,\"steps\":%ld,\"mismatches\":%ld,\"events\":%ld}\n", n_leaves, n_steps, n_mismatch,
                nevents);
     } else if (!strcmp(argv[1], "explore") && argc == 6) {
         rc = explore(!strcmp(argv[2], "camera") ? K_CAM : K_STO, atoi(argv[3]), atoi(argv[4]));
